@@ -30,6 +30,27 @@ def _classes():
     return out
 
 
+def _pinned_mro():
+    """class -> MRO names in the class table of the pinned tree (lean/Univers/Gen.expected/Classes.lean).  Which schemes
+    are *unrelated* is a fact about the library as published, not about the tree under test: a change that makes one
+    scheme's version class a subclass of another's does not make the two schemes related."""
+    import re
+    out = {}
+    try:
+        text = (common.VERIF / "lean" / "Univers" / "Gen.expected" / "Classes.lean").read_text()
+    except OSError:
+        return out
+    for m in re.finditer(r'name := "(\w+)", mro := \[([^\]]*)\]', text):
+        out[m.group(1)] = re.findall(r'"(\w+)"', m.group(2))
+    return out
+
+
+def _unrelated(pinned, classes, a, b):
+    if a in pinned and b in pinned:
+        return a not in pinned[b] and b not in pinned[a]
+    return not issubclass(classes[a], classes[b]) and not issubclass(classes[b], classes[a])
+
+
 def _samples(cls, rng, k=2):
     name = None
     for n, (vc, _) in S.SCHEMES.items():
@@ -55,6 +76,7 @@ def _samples(cls, rng, k=2):
 def correspondence(ctx):
     classes = _classes()
     names = sorted(classes)
+    pinned = _pinned_mro()
     rng = ctx.rng("c14")
     samples = {n: _samples(classes[n], rng, 3 if ctx.thorough else 2) for n in names}
     for n in names:
@@ -79,6 +101,8 @@ def correspondence(ctx):
             for d, f in OPS:
                 line = "xcmp %s %s %s" % (a, b, d)
                 pred, rel = answers[line].split(" ")
+                if rel != "unrelated" and _unrelated(pinned, classes, a, b):
+                    rel, pred = "unrelated", "-"      # related only in the tree under test
                 for sa, va in samples[a]:
                     for sb, vb in samples[b]:
                         try:
@@ -121,8 +145,13 @@ def correspondence(ctx):
         con = VersionConstraint(comparator=">=", version=own[0][1])
         rng_obj = rcls(constraints=[con])
         star = VersionConstraint(comparator="*", version_class=vcls)
+        star_range = rcls(constraints=[star])
         shapes = [("constraint", lambda v: v in con), ("range", lambda v: v in rng_obj), ("satisfies", lambda v: v.satisfies(con)),
-                  ("star constraint", lambda v: v in star), ("star range", lambda v, r=rcls(constraints=[star]): v in r)]
+                  ("star constraint", lambda v: v in star), ("star range", lambda v, r=star_range: v in r),
+                  # the other public spellings of the same tests
+                  ("constraint.contains()", lambda v: con.contains(v)), ("range.contains()", lambda v: rng_obj.contains(v)),
+                  ("star constraint.contains()", lambda v: star.contains(v)), ("satisfies star", lambda v: v.satisfies(star)),
+                  ("star range.contains()", lambda v, r=star_range: r.contains(v))]
         if len(own) >= 2:
             a, b = own[0][1], own[-1][1]
             for label, cs in (("range =a|=b", [("=", a), ("=", b)]), ("range !=a|!=b", [("!=", a), ("!=", b)]),
@@ -133,6 +162,7 @@ def correspondence(ctx):
                 except Exception:  # noqa: BLE001
                     continue
                 shapes.append((label, lambda v, rr=rr: v in rr))
+                shapes.append((label + " .contains()", lambda v, rr=rr: rr.contains(v)))
         # history: the scheme's own versions, in the spellings shared with other classes, are tested first, so that
         # anything remembered about (range, printed text) is there when the foreign version with that text arrives
         for t in ("1.2.3", "1.0.1"):
@@ -156,7 +186,7 @@ def correspondence(ctx):
                         obs = "error"
                     except Exception as e:  # noqa: BLE001
                         obs = "raise:" + type(e).__name__     # still "an error instead of an answer"
-                    unrelated = not issubclass(classes[c], vcls) and not issubclass(vcls, classes[c])
+                    unrelated = _unrelated(pinned, classes, c, vcls.__name__)
                     ctx.count("foreign-membership", key=(name, c, kind), nontrivial=unrelated, branch=pred)
                     if unrelated and obs == "answer":
                         ctx.disagree("foreign-membership", "xin %s %s (%s)" % (vcls.__name__, c, kind), "answers %r" % (r,), pred, True,
